@@ -105,6 +105,21 @@ def row_operation_width(ck, F, rule, fn, floor=3):
         ck.inst(rule, "%s:row-op#%d:%s" % (fn.rsplit("::", 1)[-1], n, kind), ok and lo_ok, e.site,
                 "%s over columns %r..%r ; required pivot column .. number of columns (whole remaining row)" % (
                     kind, inner[2] if inner else None, inner[3] if inner else None))
+    # Pivot range: when the pivots are walked by a counted loop, it covers every pivot 0..nrows (a loop that stops early leaves the last
+    # pivot unchecked: a singular matrix is accepted)
+    NROWS_ = app("proj0", app(DIM, var("array")))
+    outer = []
+    for kind, e, idx in ops:
+        if e.loops and e.loops[0][0] == "range" and e.loops[0] not in outer:
+            outer.append(e.loops[0])
+    for e in t.events:
+        if e.callee == "<return>" and e.loops and e.loops[0][0] == "range" and e.loops[0] not in outer:
+            outer.append(e.loops[0])
+    for i_, l_ in enumerate(outer):
+        # (the echelon form of a wide matrix walks columns: 0..number of columns is its whole range)
+        full = l_[2] == num(0) and not l_[4] and (l_[3] == NROWS_ or (fn.endswith("row_echelon_form") and l_[3] == NCOLS))
+        ck.inst(rule, "%s:pivot-range#%d" % (fn.rsplit("::", 1)[-1], i_ + 1), full, b.span,
+                "pivot loop over %r..%r%s ; required 0..number of rows (echelon form: or 0..number of columns)" % (l_[2], l_[3], "=" if l_[4] else ""))
     # Pivoting: the row where the non-zero element was found is exchanged with the pivot row whenever they differ - the exchange may be
     # skipped for equal rows (a no-op) but must not be conditioned on anything else, in particular not on the rows being equal
     from .symx import canon_cond
